@@ -83,6 +83,7 @@ def gen(seed, tier):
     return {'kind': kind, 'prefix': prefix, 'victim': victim,
             'follow': follow,
             'bufsize': r.choice((16, 64, 512, 4096, 8192, 65536)),
+            'reads_in_flight': r.random() < 0.7,
             'tier': tier}
 
 
@@ -199,6 +200,9 @@ class Run:
             phase = 'vote'
             st.tpc_vote(t)
             self.raw_ops = fs.nraw - n0
+            # other threads keep reading while the transaction is in
+            # flight: pooled read handles may read ahead into its bytes
+            self.read_some()
             if kind in ('abort', 'dry') or (kind == 'io'
                                             and not plan.fired):
                 # abort after vote (also the fate of a fault plan that
@@ -239,6 +243,8 @@ class Run:
                 and not getattr(self, 'skipped', False):
             self.flag('failure-not-reported', 'the %s did not raise' % kind)
         if not finished:
+            if raised is not None:
+                self.read_some()
             # the client's reaction to any failure: tpc_abort
             try:
                 st.tpc_abort(t)
@@ -257,6 +263,25 @@ class Run:
         self.outcome = ('finished' if finished else
                         'raised:%s@%s' % (type(raised).__name__, phase)
                         if raised is not None else 'aborted@' + phase)
+
+    def read_some(self):
+        """Loads through the storage's reader pool (load/loadBefore) of
+        the most recently written objects, which lie near the end of the
+        file."""
+        d = self.d
+        if not self.case.get('reads_in_flight', True):
+            return
+        seen = set()
+        for t in reversed(d.model.txns[-3:]):
+            for r in t.recs:
+                if r.oid in seen:
+                    continue
+                seen.add(r.oid)
+                try:
+                    d.st.load(r.oid)
+                    d.st.loadBefore(r.oid, t.tid)
+                except Exception:       # noqa: B902 -- judged by the sweeps
+                    pass
 
     # -- oracles ---------------------------------------------------------
 
